@@ -94,10 +94,22 @@ func VerifWorkerPieces(r *Reader, requests []Range) []VerifPiece {
 	}
 	// An empty request comes back as an error piece: the end marker.
 	reqc <- rWork{dRange: Range{-1, -1}}
+	// A Worker cuts a request into pieces of rBufferSize bytes (the last one may
+	// be shorter). Allow four times that many pieces; past that, give up: the
+	// last piece returned is the marker Range{-2, -2}.
+	maxPieces := 64
+	for _, dr := range requests {
+		maxPieces += 4 * (int(dr.Size()/rBufferSize) + 2)
+	}
 	pieces := []VerifPiece(nil)
 	for {
 		w := <-resc
 		if w.dRange == (Range{-1, -1}) {
+			break
+		}
+		if len(pieces) >= maxPieces {
+			w.recycle()
+			pieces = append(pieces, VerifPiece{DRange: Range{-2, -2}})
 			break
 		}
 		p := VerifPiece{DRange: w.dRange, Err: w.err}
